@@ -18,9 +18,27 @@ struct FaultyMotor {
     data: SettableData<f32, E>,
     log: Rc<RefCell<Vec<u32>>>,
     reject: Rc<Cell<Option<u8>>>,
+    /// one-shot re-entrancy armed by the plan: the next `impl_set` itself calls
+    /// 1 `stop_following`, 2 `follow(alternative)`, 3 `follow(primary)` (a motor with a cutoff /
+    /// fall-back source) before accepting or rejecting
+    reenter: Rc<Cell<u8>>,
+    primary: Reference<dyn Getter<f32, E>>,
+    alternative: Reference<dyn Getter<f32, E>>,
 }
 impl Settable<f32, E> for FaultyMotor {
     fn impl_set(&mut self, value: f32) -> NothingOrError<E> {
+        match self.reenter.replace(0) {
+            1 => self.stop_following(),
+            2 => {
+                let g = self.alternative.clone();
+                self.follow(g)
+            }
+            3 => {
+                let g = self.primary.clone();
+                self.follow(g)
+            }
+            _ => {}
+        }
         if let Some(k) = self.reject.get() {
             return Err(err_of(k));
         }
@@ -105,7 +123,15 @@ pub fn execute(plan: &Plan, ctx: &mut Ctx) {
     // settables
     let motor_log = Rc::new(RefCell::new(Vec::<u32>::new()));
     let motor_rej = Rc::new(Cell::new(None));
-    let mut motor = FaultyMotor { data: SettableData::new(), log: motor_log.clone(), reject: motor_rej.clone() };
+    let motor_reenter = Rc::new(Cell::new(0u8));
+    let mut motor = FaultyMotor {
+        data: SettableData::new(),
+        log: motor_log.clone(),
+        reject: motor_rej.clone(),
+        reenter: motor_reenter.clone(),
+        primary: dyn_getter::<f32, _>(fg_f[0].sensor()),
+        alternative: dyn_getter::<f32, _>(fg_alt[0].sensor()),
+    };
     let cg_init = plan.getf("cg_init");
     let mut cg: ConstantGetter<f32, SimClock, E> = ConstantGetter::new(clock_ref.clone(), cg_init);
     let term = Terminal::<E>::new();
@@ -172,6 +198,10 @@ pub fn execute(plan: &Plan, ctx: &mut Ctx) {
                 }
                 "REJ" => {
                     motor_rej.set(if op.arg(0) == 0 { None } else { Some(op.arg(0) as u8) });
+                    None
+                }
+                "MRE" => {
+                    motor_reenter.set(op.arg(0) as u8);
                     None
                 }
                 "FG" => {
@@ -247,6 +277,18 @@ pub fn execute(plan: &Plan, ctx: &mut Ctx) {
                     let t = op.arg(2);
                     let (ret, want) = match s {
                         0 => {
+                            // (a re-entrant follow change armed for the next impl_set takes effect here)
+                            match motor_reenter.get() {
+                                1 => model[0].following = false,
+                                2 | 3 => {
+                                    model[0].following = true;
+                                    follows_alt[0] = motor_reenter.get() == 2;
+                                }
+                                _ => {}
+                            }
+                            if motor_reenter.get() != 0 {
+                                ctx.count("reach.reentrant_follow_change");
+                            }
                             let r = norm_unit(&motor.set(f32::from_bits(v)));
                             let w = match motor_rej.get() {
                                 Some(k) => Some(er_of(k)),
@@ -278,6 +320,7 @@ pub fn execute(plan: &Plan, ctx: &mut Ctx) {
                     None
                 }
                 "UPD" => {
+                    let armed = motor_reenter.get();
                     // Terminal::update handles command (3) then state (2); model them in that order
                     let order: Vec<usize> = match s {
                         0 => vec![0],
@@ -303,6 +346,19 @@ pub fn execute(plan: &Plan, ctx: &mut Ctx) {
                             }
                             Fg::Some(_, v) => {
                                 if k == 0 {
+                                    // the forwarded set reaches impl_set: an armed re-entrant follow
+                                    // change happens inside this update and must stick
+                                    match armed {
+                                        1 => model[0].following = false,
+                                        2 | 3 => {
+                                            model[0].following = true;
+                                            follows_alt[0] = armed == 2;
+                                        }
+                                        _ => {}
+                                    }
+                                    if armed != 0 {
+                                        ctx.count("reach.reentrant_follow_change");
+                                    }
                                     if let Some(r) = motor_rej.get() {
                                         want = Some(er_of(r));
                                         break;
@@ -639,7 +695,14 @@ pub fn generate(prop: &str, tier: Tier, rng: &mut Rng, seed: u64, run: u64) -> P
                 }
             }
             3 | 4 => plan.push("SET", &[s, fb(uniq), tval(rng)]),
-            5 => plan.push("REJ", &[if rng.chance(0.5 + fault) { rng.range(1, 3) } else { 0 }]),
+            5 => {
+                if rng.chance(0.2) {
+                    // the motor changes what it follows from inside its next impl_set
+                    plan.push("MRE", &[rng.range(1, 3)]);
+                } else {
+                    plan.push("REJ", &[if rng.chance(0.5 + fault) { rng.range(1, 3) } else { 0 }]);
+                }
+            }
             6 => {
                 // follow the first or the alternative getter (following twice replaces the getter)
                 let alt = rng.below(2) as i64;
